@@ -441,6 +441,27 @@ func (w *c02World) step(tag string) c02StepResult {
 			}
 		}
 	}
+	// C02 (iv) under drift: once a full sync has been persisted, an address the cloud lost
+	// must not stay bindable (Valid on an interface in use) in the record
+	if w.writeErrs == 0 && len(w.drifted) > 0 {
+		synced := false
+		for i := range res.calls {
+			if res.calls[i].Kind == cloudctl.KDescribe && res.calls[i].Err == "" && len(res.calls[i].IDs) == 0 {
+				synced = true
+			}
+		}
+		if synced && !w.needSync() {
+			for _, b := range c02Bindings(cur.Status.NetworkInterfaces) {
+				if eni, ok := w.drifted[b.addr]; ok && eni == b.eni && b.ipStatus == networkv1beta1.IPStatusValid && b.eniStatus == aliyunClient.ENIStatusInUse {
+					if w.s.Mode == "C02" {
+						w.fail("C02 violated after reconcile [%s]: (iv) address %s on %s was removed in the cloud, a full sync has completed since, and the record still offers it as valid\nrecord: %s", tag, b.addr, b.eni, c02RenderRecord(cur.Status.NetworkInterfaces))
+					}
+				}
+			}
+			w.drifted = map[string]string{}
+			w.c.Label("c02:drift-then-full-sync")
+		}
+	}
 	// C08 (3), per pass: what the controller was told about and did not release must be in
 	// the record it persisted ("deleted or stays recorded for deletion")
 	if w.writeErrs == 0 && err == nil || w.writeErrs == 0 && w.writes > 0 {
@@ -450,7 +471,7 @@ func (w *c02World) step(tag string) c02StepResult {
 				w.c.Label("known:C08-lost-write-no-resync")
 			case len(w.nilMapHit) > 0 && c08Known("C08-sync-merge-nil-map"):
 				w.c.Label("known:C08-sync-merge-nil-map")
-			case strings.Contains(msg, "name:") && c08Known("C08-eflo-partial-key-collision"):
+			case strings.Contains(msg, "name:") && c08AnyEmptyKey(cur) && c08Known("C08-eflo-partial-key-collision"):
 				w.c.Label("known:C08-eflo-partial-key-collision")
 			case w.s.Mode == "C08":
 				w.fail("C08 rollback: after reconcile [%s] %s\nrecord: %s", tag, msg, c02RenderRecord(cur.Status.NetworkInterfaces))
@@ -590,6 +611,15 @@ func c08NilFamily(n *networkv1beta1.Node, kind string) bool {
 		return len(e.IPv6) == 0
 	}
 	return len(e.IPv4) == 0
+}
+
+func c08AnyEmptyKey(n *networkv1beta1.Node) bool {
+	for _, e := range n.Status.NetworkInterfaces {
+		if _, ok := e.IPv4[""]; ok {
+			return true
+		}
+	}
+	return false
 }
 
 // c08EmptyKey: the record the pass started from holds an address entry under the empty key
@@ -958,11 +988,15 @@ func (w *c02World) drift(tag string, o c02Op) {
 		}
 		ip := list[o.B%len(list)]
 		if w.cloud.DriftRemoveIP(e.ID, ip.Addr) {
+			w.drifted[ip.Addr] = e.ID
 			w.trace("[%s] drift: %s removed from %s", tag, ip.Addr, e.ID)
 			w.c.Label("drift:rmip")
 		}
 	case "rmeni":
 		w.cloud.DriftDeleteENI(e.ID)
+		for _, ip := range append(append([]cloudctl.IP(nil), e.V4...), e.V6...) {
+			w.drifted[ip.Addr] = e.ID
+		}
 		w.trace("[%s] drift: interface %s deleted", tag, e.ID)
 		w.c.Label("drift:rmeni")
 	case "detach":
